@@ -25,17 +25,23 @@ def rand_atom(rng):
     if c < 0.2:
         return S(rng.choice(PECULIAR + ["a", "b", "foo", "list->vector", "x1"]))
     if c < 0.28:
+        if rng.random() < 0.4:
+            return ("bar", "".join(rng.choice(["a", " ", "(", ";", "\"", "#", "\n", "\r\n", "\r", "\t", "'", "."]) for _ in range(rng.randint(0, 5))))
         return ("bar", rng.choice(["bar quoted", "a b", "(", "", "with;semi", "x\"y", "#t"]))       # |quoted| identifier
     if c < 0.42:
         return rng.choice([0, 1, -1, 42, 2147483647, -2147483648, 65536, rng.randint(-10 ** 6, 10 ** 6)])
     if c < 0.5:
-        return ("rat", rng.choice(["1/2", "-1/2", "3/4", "6/4", "10/5", "-7/3", "0/5", "2147483647/2", "1/65536"]))
+        return ("rat", rng.choice(["1/2", "-1/2", "3/4", "6/4", "10/5", "-7/3", "0/5", "2147483647/2", "1/65536", "-2147483648/3", "-2147483648/2", "-2147483648/1",
+                                   "2147483647/2147483646", "-2147483647/2", "1/2147483647", "+3/4", "-2147483648/2147483647", "2147483646/2147483647"]))
     if c < 0.62:
         return ("dec", rng.choice(["1.5", "-2.5", "0.1", "1e5", "1.5e-3", "-1e10", "1.", "0.", "+.5", "-.25", "12.25e+2", "3.4e38", "1e-45", "100.0", "1e0"]))
     if c < 0.7:
         return rng.random() < 0.5
     if c < 0.8:
         return Char(rng.choice(["a", "Z", "0", "(", ")", ";", "\"", "#", "\\", "|", "'", ".", "+"]))
+    if rng.random() < 0.5:
+        # random strings over characters that matter to a lexer, line ends of every kind included
+        return "".join(rng.choice(["a", "b", " ", "\"", "\\", "\n", "\r", "\r\n", "\t", "\a", "|", ";", "(", ")", "#", "'", "n", "\\n"]) for _ in range(rng.randint(0, 6)))
     return rng.choice(["", "s", "two words", "q\"uote", "back\\slash", "new\nline", "tab\there", "bell\a", "bar|", "semi;colon", "(paren)", "\r", "\b"])
 
 
@@ -70,7 +76,8 @@ def tokens_of(t, rng):
     if isinstance(t, Char):
         return ["#\\" + t.ch]
     if isinstance(t, str):
-        return [show_string(t)]
+        # line ends and tabs may stand in a string literal as they are, or as escapes
+        return ['"' + "".join((c if (c in "\n\r\t" and rng.random() < 0.6) else show_string(c)[1:-1]) for c in t) + '"']
     if isinstance(t, Vec):
         return ["#("] + [x for y in t.items for x in tokens_of(y, rng)] + [")"]
     if isinstance(t, Dot):
